@@ -151,6 +151,7 @@ func (s *Server) handle(rw http.ResponseWriter, r *http.Request) {
 	case r.URL.Path == "/authz":
 		rw.Header().Set("X-Authz", "granted")
 		rw.Header().Set("X-Other", "other")
+		rw.Header().Set("X-More", "more")
 		reply(map[string]any{"allowed": true, "level": 3})
 	case r.URL.Path == "/ctx":
 		reply(map[string]any{"ctx": "data", "n": 7})
